@@ -80,14 +80,38 @@ def check(c):
     c.exactly('C12.probe', 'CompletionEvaluator call in get_optional_outputs',
               len(ev), 1)
     for n in ev:
+        # which variable is being probed: the key of the enclosing dict
+        # comprehension over used_compvars, or the loop variable of a
+        # `for k in used_compvars: result[k] = CompletionEvaluator(...)`
+        pv = None
+        cur = n
+        while id(cur) in c.idx.parent and cur is not go.node:
+            cur = c.idx.parent[id(cur)]
+            if isinstance(cur, ast.DictComp) and norm(
+                    cur.generators[0].iter) == 'used_compvars' and norm(
+                    cur.key) == norm(cur.generators[0].target):
+                pv = norm(cur.key)
+                break
+            if isinstance(cur, ast.For) and norm(
+                    cur.iter) == 'used_compvars':
+                st = c.idx.stmt_of(n)
+                if isinstance(st, ast.Assign) and isinstance(
+                        st.targets[0], ast.Subscript) and norm(
+                        st.targets[0].slice) == norm(cur.target):
+                    pv = norm(cur.target)
+                break
+        c.ob('C12.probe', c.key(n, go)[:100] + ' one probe per used '
+             'variable', pv is not None, c.where(n, go), f'probed: {pv}')
         kw = n.keywords[0].value if n.keywords else None
         probe = forced = False
-        if isinstance(kw, ast.Dict):
+        if isinstance(kw, ast.Dict) and pv is not None:
             for k, v in zip(kw.keys, kw.values):
                 if k is None and isinstance(v, ast.DictComp):
-                    if norm(v.key) == 'out' and norm(v.value) == \
-                            'out != output' and norm(
-                                v.generators[0].iter) == 'all_compvars':
+                    var = norm(v.generators[0].target)
+                    if norm(v.key) == var and norm(v.value) in (
+                            f'{var} != {pv}', f'{pv} != {var}') and norm(
+                                v.generators[0].iter) == 'all_compvars' \
+                            and not v.generators[0].ifs:
                         probe = True
             consts = {k.value: norm(v) for k, v in zip(kw.keys, kw.values)
                       if isinstance(k, ast.Constant)}
@@ -107,14 +131,19 @@ def check(c):
         c.ob('C12.probe', c.key(n, go)[:100] + ' expired / submit_failed '
              'forced false (after the probe map)', forced and ok_order,
              c.where(n, go), '')
-        lp = c.idx.parent[id(n)]
-        ok = isinstance(lp, ast.DictComp) and norm(
-            lp.generators[0].iter) == 'used_compvars' and norm(
-            lp.key) == 'output'
-        c.ob('C12.probe', c.key(n, go)[:100] + ' one probe per used '
-             'variable', ok, c.where(n, go), '')
-    c.floor('C12.probe', 'unused variables reported as None', len(
-        c.find(go, 'dict.fromkeys(all_compvars - used_compvars)')), 1)
+    # variables the expression does not mention are reported as None
+    fk = [x for x in c.calls(go, 'fromkeys') if x.args]
+    ok = False
+    for x in fk:
+        a0 = x.args[0]
+        if isinstance(a0, ast.Name):
+            defs = [d for d in c.idx.walk(go.node) if isinstance(d, ast.Assign)
+                    and norm(d.targets[0]) == a0.id]
+            a0 = defs[0].value if len(defs) == 1 else a0
+        if norm(a0) == 'all_compvars - used_compvars' and len(x.args) == 1:
+            ok = True
+    c.ob('C12.probe', f'{go.fq} :: unused variables reported as None', ok,
+         c.where(go.node, go), '')
     c.floor('C12.probe', 'used variables from the expression', len(
         c.find(go, 'get_variable_names(expression)')), 1)
 
